@@ -264,7 +264,8 @@ func hostKeying(c *core.Ctx, rule string) {
 		return
 	}
 	c.Analysed(facts.FuncName(rt))
-	isURLHost := func(v ssa.Value) bool {
+	authFns := c.P.ModuleFunctions("ociauth")
+	isURLHost0 := func(v ssa.Value) bool {
 		b, fld, ok := facts.FieldOf(facts.Resolve(v))
 		if !ok || fld != "Host" {
 			return false
@@ -275,8 +276,50 @@ func hostKeying(c *core.Ctx, rule string) {
 		}
 		return strings.HasSuffix(b2.Type().String(), "http.Request")
 	}
+	// req.URL.Host itself, or a parameter of a helper that every caller binds to it
+	var isURLHostD func(v ssa.Value, d int) bool
+	isURLHostD = func(v ssa.Value, d int) bool {
+		if isURLHost0(v) {
+			return true
+		}
+		p, ok := facts.Resolve(v).(*ssa.Parameter)
+		if !ok || d <= 0 || p.Parent().Parent() != nil {
+			return false
+		}
+		h, pi := p.Parent(), -1
+		for i, q := range h.Params {
+			if q == p {
+				pi = i
+			}
+		}
+		callers := 0
+		for _, f := range authFns {
+			for _, ci := range facts.CallsIn(f) {
+				if sc := ci.Common().StaticCallee(); sc == h {
+					callers++
+					if pi < 0 || pi >= len(ci.Common().Args) || !isURLHostD(ci.Common().Args[pi], d-1) {
+						return false
+					}
+				}
+			}
+		}
+		return callers > 0
+	}
+	isURLHost := func(v ssa.Value) bool { return isURLHostD(v, 2) }
+	// the per-host table is consulted by RoundTrip or by unexported helpers it calls
+	scope := []*ssa.Function{rt}
+	for _, ci := range facts.CallsIn(rt) {
+		if sc := ci.Common().StaticCallee(); sc != nil && sc.Blocks != nil && sc.Pkg == rt.Pkg && sc.Signature.Recv() != nil && structName(sc.Signature.Recv().Type()) == "stdTransport" {
+			scope = append(scope, sc)
+			c.Analysed(facts.FuncName(sc))
+		}
+	}
 	n := 0
-	for _, b := range rt.Blocks {
+	var blocks []*ssa.BasicBlock
+	for _, f := range scope {
+		blocks = append(blocks, f.Blocks...)
+	}
+	for _, b := range blocks {
 		for _, in := range b.Instrs {
 			switch x := in.(type) {
 			case *ssa.Lookup:
